@@ -560,8 +560,15 @@ pub fn cmd_check(args: &Args) -> i32 {
                     notes.push(format!("run {}: {}", run, m));
                 }
                 ChildOutcome::Pass => {
-                    eprintln!("HARNESS: worker died in run {} (code {:?}, signal {:?}) but the run passes when re-executed alone", run, code, sig);
-                    return 2;
+                    if *code == Some(97) {
+                        // first-level stall that the second, longer look does not confirm (a
+                        // heavily loaded machine): not a hang, and not a finding
+                        inconclusive_crashes += 1;
+                        notes.push(format!("run {}: stalled under the 6 s first-level watchdog, completed normally when re-executed alone", run));
+                    } else {
+                        eprintln!("HARNESS: worker died in run {} (code {:?}, signal {:?}) but the run passes when re-executed alone", run, code, sig);
+                        return 2;
+                    }
                 }
                 ChildOutcome::HarnessError(e) => {
                     eprintln!("HARNESS: {}", e);
